@@ -6,6 +6,8 @@ index (incl. overwrite / delete sequences, commit, close, reopen); listings
 written with metadata and parsed back given the hash name.
 """
 
+CASE_TIMEOUT = 120  # seconds per pool task (the unchanged tree needs a small fraction of this)
+
 import itertools
 import json
 import os
